@@ -43,10 +43,21 @@ SEEDS = {
  "S38-decoder-end-check-before-refill": ("C06 (round 4, bit-level kernels)", "the decoder's end-of-item check (no pending bits at the root => None) runs before the refill instead of after it", "an exactly-8-bit code (or 16 bits via a nested table) filling a byte-aligned byte with more symbols following: the item is silently cut short"),
  "S39-bytesmap-get-last-slot": ("C07 (round 4, per-item path)", "BytesMap::get bounds check `index + 1 < self.len()`: the last decode slot always reads as unassigned", "a string equal to the highest-tag dictionary entry is stored as its one-byte code and reads back as the raw tag byte"),
  "S40-dictionary-refusal-dense-tags": ("C07 (round 4, per-item path)", "the push-time refusal check tests `tag >= self.encode.len()` (assumes densely assigned tags)", "a dictionary that skipped low tag values (seen as first bytes in the sources): a literal whose first byte is an assigned tag above the entry count is accepted and reads back as the entry"),
+ "S41-result-clone-from-errs": ("C01 (round 5, untouched sites)", "ResultRegion::clone_from no longer copies `errs`", "clone_from (not clone) of a ResultRegion whose Err side keeps state (strings, owned slices), then reading an Err item: stale bytes or a panic"),
+ "S42-pushstorage-swap-nonempty": ("C02 (round 5)", "PushStorage<&mut Vec<T>> for Vec<T> swaps in the pushed vector's allocation when the region lacks room and the vector has spare capacity", "an owned Vec WITH SPARE CAPACITY >= the region's length pushed by value onto a non-empty OwnedRegion that has no room left: every earlier item is shifted"),
+ "S43-flatstack-extend-size-hint": ("C03 (round 5)", "FlatStack::extend returns early when the iterator's size_hint lower bound is 0", "extend / from_iter fed by filter, flat_map, or another stack's iterator (IndexOptimized / IndexList iterators give no size hint): every item is dropped"),
+ "S44-indexopt-extend-spill-once": ("C05 (round 5)", "IndexOptimized::extend tests 'already spilled?' once before the loop", "one extend call in which a value the stride rejects is followed by one it accepts (e.g. [3, 0] or [0,2,5,4]): stored out of order"),
+ "S45-readslice-clone-onto-empty": ("C13 (round 5; breaks C14's clone_onto law)", "ReadSlice::clone_onto returns early for an empty item (skips the truncate)", "an EMPTY slice item cloned onto a reused, non-empty buffer: the previous contents stay"),
+ "S46-readsliceiter-nth": ("C14 (round 5)", "a new ReadSliceIter::nth override sets start = n instead of start + n", "clone_onto of a region-backed slice item that is not first in its region onto a non-empty shorter target (skip() goes through nth)"),
+ "S47-vec-reserve-items-size-hint": ("C17 (round 5)", "ReserveItems for Vec<T> reserves size_hint().0 instead of count()", "a plain-vector region under OptionRegion / ResultRegion / SliceRegion: their filtering iterators have lower bound 0, nothing is reserved, the announced pushes reallocate"),
+ "S48-columns-clear-no-columns": ("C19 (round 5; breaks C08 / C12 directly)", "ColumnsRegion::clear returns early when no column exists", "a region that only ever held EMPTY rows: the row index list survives clear, numbering resumes at N"),
+ "S49-columns-push-vec-truncates": ("C20 (round 5)", "Push<Vec<T>> for ColumnsRegion sizes the columns with resize_with(item.len()) (also shrinks)", "an OWNED Vec row narrower than an earlier row: trailing columns are dropped, earlier rows read back short"),
+ "S50-slice-serde-flatten": ("C16 (round 5)", "#[serde(flatten)] on SliceRegion::inner", "a slice region nested over a region that also has a `slices` field (SliceRegion<SliceRegion<_>>, SliceRegion<OwnedRegion<_>>) through a self-describing format: duplicate field on deserialisation"),
+ "S51-result-clear-skips-errs": ("C11 (round 5; breaks C08 directly)", "ResultRegion::clear clears `oks` twice and never `errs`", "a ResultRegion whose Err side keeps state, with a clear between pushes: Err indices continue after the clear, a collapsing Err side dedups against pre-clear data"),
 }
 results = {}
 # later files / lines override earlier ones for the same (seed, check): checks were strengthened between passes
-for fn in ("summary.txt", "summary2.txt", "summary3.txt", "summary4.txt"):
+for fn in ("summary.txt", "summary2.txt", "summary3.txt", "summary4.txt", "summary5.txt", "summary6.txt", "summary8.txt"):
     p = os.path.join(V, ".cache", "seedlogs", fn)
     if not os.path.exists(p):
         continue
@@ -65,7 +76,7 @@ for name, (prop, change, needs) in SEEDS.items():
         breaks_property=prop, change=change, needs_to_manifest=needs,
         origin=("written by hand while building the C04 program-text scan (no sub-agent)" if name.startswith("S36") else "written by an independent sub-agent that was given only the property text and a scratch worktree of /repo"),
         confirmed=(dict(how="patch applies to /repo HEAD; crate compiles; the existing suite passes (nothing calls the new impl); the generated harness's replay is the demonstration", result="confirmed") if name.startswith("S36") else dict(how="tools/verify_seed.sh in a fresh scratch worktree of /repo HEAD: patch applies; crate compiles; existing suite (64 tests + 11 doctests) passes with the patch; demo.rs fails with the patch and passes without it", result="confirmed")),
-        checks_run=[dict(cmd=("tools/seedtest_alt.sh %s %s  (patch applied to a scratch worktree of /repo HEAD; VERIF_ALT_REPO=<worktree> ./check %s --tier quick)" if name[:3] >= "S36" else "tools/seedtest.sh %s %s  (git -C /repo apply patch.diff; ./check %s --tier quick; git -C /repo checkout -- .)") % (name, r["check"], r["check"]), exit=r["exit"], violation_lines=r["violation_lines"], first_violations=r["first"]) for r in res],
+        checks_run=[dict(cmd="tools/seedtest.sh %s %s  (git -C /repo apply patch.diff; ./check %s --tier quick; git -C /repo checkout -- .)" % (name, r["check"], r["check"]), exit=r["exit"], violation_lines=r["violation_lines"], first_violations=r["first"]) for r in res],
         detected_by=[r["check"] for r in res if r["exit"] == 1],
     )
     json.dump(meta, open(os.path.join(d, "meta.json"), "w"), indent=1)
